@@ -102,7 +102,14 @@ func richH264() [][]byte {
 	a.Vui.VclHrdParametersPresentFlag = true
 	a.Vui.VclHrd = h26xps.H264HRD{BitRateValueMinus1: []uint32{0}, CpbSizeValueMinus1: []uint32{0}, CbrFlag: []bool{false}}
 	a.Vui.BitstreamRestrictionFlag, a.Vui.MaxDecFrameBuffering = true, 16
-	return [][]byte{a.Encode(), h26xps.MinimalH264SPS(640, 480), h26xps.MinimalH264PPS()}
+	out := [][]byte{a.Encode(), h26xps.MinimalH264SPS(640, 480), h26xps.MinimalH264PPS()}
+	// one SPS per profile_idc that has the chroma branch (7.3.2.1.1), incl. the SVC / MVC / MFC ones
+	for _, prof := range h26xps.H264ProfilesWithChromaInfo {
+		b := h26xps.NewH264SPS(1920, 1080)
+		b.ProfileIdc, b.ChromaFormatIdc, b.BitDepthLumaMinus8, b.FrameCropBottomOffset = prof, 2, 2, 8
+		out = append(out, b.Encode())
+	}
+	return out
 }
 
 func richH265() [][]byte {
@@ -147,9 +154,10 @@ func richVPS() [][]byte {
 // ---- domain predicates for the differential part --------------------------
 
 func h264InDomain(s *h26xps.H264SPS) bool {
-	switch s.ProfileIdc {
-	case 66, 77, 88, 100, 110, 122, 244, 44:
-	default:
+	// every profile_idc is in the domain (the syntax table decides the branch,
+	// h26xps.HasChromaInfo) except the reserved value 183, which ipchub, after
+	// FFmpeg, deliberately reads as monochrome
+	if s.ProfileIdc == 183 {
 		return false
 	}
 	d := s.Derived()
